@@ -158,6 +158,12 @@ func freshExplore(c *core.Ctx, sub, panel string, threads, bound int, maxExec in
 	for i, o := range ops {
 		expected[i] = o.Run()
 	}
+	// the serial answers must be reproducible before they can serve as an oracle
+	for i, o := range p.Ops()[:len(ops)] {
+		if again := o.Run(); again != expected[i] {
+			panic(core.HarnessError(fmt.Sprintf("panel %s: the serial answer of %q is not reproducible (%s vs %s)", panel, o.Name, trunc(expected[i], 120), trunc(again, 120))))
+		}
+	}
 	st := freshStats{Panel: panel, Threads: len(ops), Bound: bound, MemBinary: bin != ""}
 	var mu sync.Mutex
 	outcomes := map[string]bool{}
